@@ -612,3 +612,649 @@ Section TrimDfs.
     - intros ev Hev. destruct (G5 ev Hev) as [[] | Hs]. exact Hs.
   Qed.
 End TrimDfs.
+
+(* ------------------------------------------- 5. well-formed descriptors *)
+Record wf_engine (e : engine) (rank : name -> nat) : Prop := mkWf {
+  wf_tags : NoDup (map b_tag (build_order e));
+  wf_nonempty : forall b r, In b (build_order e) -> In r (a_deps (b_alg b)) -> expand e r <> [];
+  wf_ins_owned : forall b p, In b (build_order e) -> In p (b_ins e b) -> owned e p;
+  wf_fb_owned : forall b p, In b (build_order e) -> In p (expands e (a_fb (b_alg b))) -> owned e p;
+  wf_rank : forall b p, In b (build_order e) -> In p (b_ins e b) -> rank (trim 2 p) < rank (b_tag b);
+  wf_bound : forall b, In b (build_order e) -> rank (b_tag b) < length (build_order e) }.
+
+Lemma nodupb_spec l : nodupb l = true -> NoDup l.
+Proof.
+  induction l as [|x l IH]; simpl; intro H; [constructor|].
+  apply andb_true_iff in H as [H1 H2]. constructor; [|apply IH; exact H2].
+  apply negb_true_iff in H1. apply mem_false. exact H1.
+Qed.
+Lemma ownedb_spec e p : ownedb e p = true -> owned e p.
+Proof.
+  unfold ownedb, owned. rewrite existsb_exists. intros [b [Hb H]]. exists b. split; [exact Hb | apply mem_In; exact H].
+Qed.
+Lemma andb5 a b c d f : a && b && c && d && f = true ->
+  a = true /\ b = true /\ c = true /\ d = true /\ f = true.
+Proof. destruct a, b, c, d, f; simpl; intro H; try discriminate; auto. Qed.
+
+Theorem wf_engineb_spec e rk : wf_engineb e rk = true -> wf_engine e (rank_of rk).
+Proof.
+  unfold wf_engineb. intro H. apply andb_true_iff in H as [H1 H2].
+  rewrite forallb_forall in H2.
+  assert (G : forall b, In b (build_order e) ->
+    (forall r, In r (a_deps (b_alg b)) -> expand e r <> []) /\
+    (forall p, In p (b_ins e b) -> owned e p) /\
+    (forall p, In p (expands e (a_fb (b_alg b))) -> owned e p) /\
+    (forall p, In p (b_ins e b) -> rank_of rk (trim 2 p) < rank_of rk (b_tag b)) /\
+    rank_of rk (b_tag b) < length (build_order e)).
+  { intros b Hb. apply H2 in Hb. apply andb5 in Hb as (E1 & E2 & E3 & E4 & E5).
+    rewrite forallb_forall in E1, E2, E3, E4. repeat split.
+    - intros r Hr. apply E1 in Hr. destruct (expand e r); [discriminate | discriminate].
+    - intros p Hp. apply ownedb_spec, E2, Hp.
+    - intros p Hp. apply ownedb_spec, E3, Hp.
+    - intros p Hp. apply Nat.ltb_lt, E4, Hp.
+    - apply Nat.ltb_lt, E5. }
+  constructor.
+  - apply nodupb_spec. exact H1.
+  - intros b r Hb. apply (G b Hb).
+  - intros b p Hb. apply (G b Hb).
+  - intros b p Hb. apply (G b Hb).
+  - intros b p Hb. apply (G b Hb).
+  - intros b Hb. apply (G b Hb).
+Qed.
+
+Lemma find_nodup {A} (f : A -> name) l a :
+  NoDup (map f l) -> In a l -> find (fun x => name_eqb (f x) (f a)) l = Some a.
+Proof.
+  induction l as [|a0 l IH]; simpl; intros ND Hin; [destruct Hin|].
+  inversion ND as [|? ? Hn ND']; subst. destruct Hin as [<- | Hin].
+  - rewrite name_eqb_refl. reflexivity.
+  - destruct (name_eqb (f a0) (f a)) eqn:E.
+    + apply name_eqb_eq in E. exfalso. apply Hn. rewrite E. apply in_map. exact Hin.
+    + apply IH; assumption.
+Qed.
+Lemma crt_incl {A} (R R' : relation A) : (forall a b, R a b -> R' a b) ->
+  forall a b, clos_refl_trans A R a b -> clos_refl_trans A R' a b.
+Proof.
+  intros H a b Hc. induction Hc; [apply rt_step; auto | apply rt_refl | eapply rt_trans; eauto].
+Qed.
+Lemma ct_incl {A} (R R' : relation A) : (forall a b, R a b -> R' a b) ->
+  forall a b, clos_trans A R a b -> clos_trans A R' a b.
+Proof.
+  intros H a b Hc. induction Hc; [apply t_step; auto | eapply t_trans; eauto].
+Qed.
+
+Section Wf.
+  Variable e : engine.
+  Variable rank : name -> nat.
+  Hypothesis W : wf_engine e rank.
+  Definition rvv (n : name) : nat := rank (trim 2 n).
+  Notation bo := (build_order e).
+  Notation EE := (edges (events e)).
+  Notation FL := (flat_order (events e)).
+
+  Lemma owner_of b n : In b bo -> In n (b_own b) -> owner e n = Some b.
+  Proof.
+    intros Hb Hn. unfold owner. rewrite (b_own_tag b n Hn).
+    apply (find_nodup b_tag); [apply (wf_tags _ _ W) | exact Hb].
+  Qed.
+  Lemma owner_In n b : owner e n = Some b -> In b bo /\ b_tag b = trim 2 n.
+  Proof.
+    unfold owner. intro H. apply find_some in H as [H1 H2]. split; [exact H1 | apply name_eqb_eq; exact H2].
+  Qed.
+  Lemma vedge_owned_l p c : vedge e p c -> owned e p.
+  Proof. intros [b [Hb [_ Hp]]]. eapply (wf_ins_owned _ _ W); eauto. Qed.
+  Lemma vedge_owned_r p c : vedge e p c -> owned e c.
+  Proof. intros [b [Hb [Hc _]]]. exists b. auto. Qed.
+  Lemma vedge_rank p c : vedge e p c -> rvv p < rvv c.
+  Proof.
+    intros [b [Hb [Hc Hp]]]. unfold rvv. rewrite (b_own_tag b c Hc). eapply (wf_rank _ _ W); eauto.
+  Qed.
+  Lemma owned_bound n : owned e n -> rvv n < length bo.
+  Proof. intros [b [Hb Hn]]. unfold rvv. rewrite (b_own_tag b n Hn). apply (wf_bound _ _ W). exact Hb. Qed.
+  Lemma flat_owned n : In n FL <-> owned e n.
+  Proof.
+    rewrite In_flat. split; [|auto]. intros [H | [c H]]; [exact H | eapply vedge_owned_l; exact H].
+  Qed.
+  Lemma xkids_iff p c : In c (xkids EE p) <-> vedge e p c.
+  Proof.
+    unfold xkids. rewrite filter_In, vedge_iff. split; [tauto|]. intro H. split; [exact H|].
+    apply negb_true_iff. apply name_eqb_neq. intro Ee. apply vedge_rank in H. unfold rvv in H.
+    rewrite Ee in H. lia.
+  Qed.
+
+  Lemma owned_reach : forall m n, rvv n < m -> owned e n ->
+    exists r, In r (roots (events e)) /\ clos_refl_trans name (vedge e) r n.
+  Proof.
+    induction m as [|m IH]; intros n Hlt Hn; [lia|].
+    destruct Hn as [b [Hb Hn]]. destruct (a_deps (b_alg b)) as [|r rs] eqn:Ed.
+    - exists n. split; [|apply rt_refl]. apply In_roots_e. exists b. auto.
+    - assert (Hr : In r (a_deps (b_alg b))) by (rewrite Ed; left; reflexivity).
+      pose proof (wf_nonempty _ _ W b r Hb Hr) as Hne.
+      destruct (expand e r) as [|p ps] eqn:Ex; [contradiction|].
+      assert (Hp : In p (b_ins e b)).
+      { unfold b_ins, expands. apply in_flat_map. exists r. split; [exact Hr|]. rewrite Ex. left. reflexivity. }
+      assert (Hv : vedge e p n) by (exists b; auto).
+      pose proof (vedge_rank _ _ Hv) as Hrk.
+      destruct (IH p ltac:(lia) (vedge_owned_l _ _ Hv)) as [r0 [Hr0 Hpath]].
+      exists r0. split; [exact Hr0|]. eapply rt_trans; [exact Hpath | apply rt_step; exact Hv].
+  Qed.
+
+  Variable ro : list name.
+  Variable fo : name -> list name.
+  Notation d := (construct e ro fo).
+  Notation RTS := (reorder ro (roots (events e))).
+
+  Lemma d_fields :
+    d_flat d = FL /\ d_edges d = EE /\ d_roots d = RTS /\ d_fuel d = dfuel e FL /\
+    d_par d = snd (par_dfs EE (dfuel e FL) RTS ([], [])).
+  Proof. repeat split. Qed.
+
+  Lemma root_owned r : In r RTS -> owned e r.
+  Proof.
+    rewrite In_reorder, In_roots_e. intros [b [Hb [Hn _]]]. exists b. auto.
+  Qed.
+
+  (* value-level parents: exactly the declared inputs *)
+  Lemma d_par_iff c p : In (c, p) (d_par d) <-> vedge e p c.
+  Proof.
+    destruct d_fields as (_ & _ & _ & _ & ->).
+    rewrite (par_dfs_spec EE rvv (length bo)).
+    - split.
+      + intros [_ H]. apply xkids_iff. exact H.
+      + intro H. split; [|apply xkids_iff; exact H].
+        destruct (owned_reach (S (rvv p)) p ltac:(lia) (vedge_owned_l _ _ H)) as [r [Hr Hp]].
+        exists r. split; [apply In_reorder; exact Hr|].
+        eapply crt_incl; [|exact Hp]. intros a b Hab. apply xkids_iff. exact Hab.
+    - intros p0 c0 H. apply xkids_iff in H. apply vedge_rank. exact H.
+    - intros p0 c0 H. apply xkids_iff in H. apply owned_bound. eapply vedge_owned_r. exact H.
+    - intros r Hr. pose proof (owned_bound r (root_owned r Hr)). unfold dfuel. split; lia.
+  Qed.
+
+  (* value-level ancestry: transitive closure of the declared inputs *)
+  Lemma d_anc_iff n a : owned e n -> In a (d_anc d n) <-> clos_trans name (vedge e) a n.
+  Proof.
+    intro Hn. unfold d_anc. rewrite (ancestry_spec (d_par d) rvv).
+    - split; apply ct_incl; intros x y H; [apply d_par_iff | apply d_par_iff in H]; exact H.
+    - intros x y H. apply d_par_iff in H. apply vedge_rank. exact H.
+    - destruct d_fields as (_ & _ & _ & -> & _). pose proof (owned_bound n Hn). unfold dfuel. lia.
+  Qed.
+End Wf.
+
+(* ------------------------------------------------ 6. the trimmed trees *)
+Lemma In_skids log x y : In y (skids log x) <-> In (EKid x y) log.
+Proof.
+  unfold skids. rewrite In_adds, in_flat_map. simpl. split.
+  - intros [[] | [ev [Hev H]]]. destruct ev as [a b | a b]; simpl in H; [|destruct H].
+    destruct (name_eqb a x) eqn:E; [|destruct H]. apply name_eqb_eq in E. destruct H as [<- | []]. subst. exact Hev.
+  - intro H. right. exists (EKid x y). split; [exact H|]. simpl. rewrite name_eqb_refl. left. reflexivity.
+Qed.
+Lemma In_sfb log x y : In y (sfb log x) <-> In (EFb x y) log.
+Proof.
+  unfold sfb. rewrite In_adds, in_flat_map. simpl. split.
+  - intros [[] | [ev [Hev H]]]. destruct ev as [a b | a b]; simpl in H; [destruct H|].
+    destruct (name_eqb a x) eqn:E; [|destruct H]. apply name_eqb_eq in E. destruct H as [<- | []]. subst. exact Hev.
+  - intro H. right. exists (EFb x y). split; [exact H|]. simpl. rewrite name_eqb_refl. left. reflexivity.
+Qed.
+Lemma In_slift vis f x a :
+  In a (slift vis f x) <-> exists v, In v vis /\ trim 2 v = x /\ exists a0, In a0 (f v) /\ trim 2 a0 = a.
+Proof.
+  unfold slift. rewrite In_adds, in_flat_map. cbn [In]. split.
+  - intros [[] | [v [Hv H]]]. destruct (name_eqb (trim 2 v) x) eqn:E; [|destruct H].
+    apply name_eqb_eq in E. apply in_map_iff in H as [a0 [E0 H0]]. exists v. repeat split; auto. exists a0. auto.
+  - intros [v [Hv [E [a0 [H0 E0]]]]]. right. exists v. split; [exact Hv|].
+    rewrite <- E, name_eqb_refl. apply in_map_iff. exists a0. auto.
+Qed.
+Lemma ct_map {A B} (R : relation A) (R' : relation B) (f : A -> B) :
+  (forall x y, R x y -> R' (f x) (f y)) ->
+  forall x y, clos_trans A R x y -> clos_trans B R' (f x) (f y).
+Proof. intros H x y Hc. induction Hc; [apply t_step; auto | eapply t_trans; eauto]. Qed.
+Lemma crt_map {A B} (R : relation A) (R' : relation B) (f : A -> B) :
+  (forall x y, R x y -> R' (f x) (f y)) ->
+  forall x y, clos_refl_trans A R x y -> clos_refl_trans B R' (f x) (f y).
+Proof. intros H x y Hc. induction Hc; [apply rt_step; auto | apply rt_refl | eapply rt_trans; eauto]. Qed.
+
+(* the declared-input relation at granularity L (4 = value, 3 = state vector,
+   2 = algorithm, 1 = package) *)
+Definition ledge (e : engine) (L : nat) (X Y : name) : Prop :=
+  exists p c, vedge e p c /\ trim L p = X /\ trim L c = Y.
+
+Section WfTrim.
+  Variable e : engine.
+  Variable rank : name -> nat.
+  Hypothesis W : wf_engine e rank.
+  Variable ro : list name.
+  Variable fo : name -> list name.
+  Notation bo := (build_order e).
+  Notation EE := (edges (events e)).
+  Notation FL := (flat_order (events e)).
+  Notation d := (construct e ro fo).
+  Notation RTS := (reorder ro (roots (events e))).
+  Definition FBf (v : name) : list name := reorder (fo v) (adds [] (fb_of e v)).
+
+  Lemma d_trim L :
+    d_vis d L = fst (trim_run (kids EE) FBf L (dfuel e FL) RTS) /\
+    d_log d L = snd (trim_run (kids EE) FBf L (dfuel e FL) RTS).
+  Proof. split; reflexivity. Qed.
+  Lemma In_FBf v x : In x (FBf v) <-> In x (fb_of e v).
+  Proof. unfold FBf. rewrite In_reorder, In_adds. simpl. tauto. Qed.
+  Lemma fb_of_owned v x : In x (fb_of e v) -> owned e x.
+  Proof.
+    unfold fb_of. destruct (owner e v) as [b|] eqn:Eo; [|intros []].
+    intro H. apply (owner_In e) in Eo as [Hb _]. eapply (wf_fb_owned _ _ W); eauto.
+  Qed.
+  Lemma UK : forall v c, In v FL -> In c (kids EE v) -> In c FL.
+  Proof. intros v c _ H. apply vedge_iff in H. apply (flat_owned e rank W). eapply vedge_owned_r; eauto. Qed.
+  Lemma UF : forall v c, In v FL -> In c (FBf v) -> In c FL.
+  Proof. intros v c _ H. apply In_FBf in H. apply (flat_owned e rank W). eapply fb_of_owned; eauto. Qed.
+
+  Lemma trim_facts L :
+    (forall k, In k (d_vis d L) <-> owned e k) /\
+    (forall X Y, In (EKid X Y) (d_log d L) <-> ledge e L X Y) /\
+    (forall X Y, In (EFb X Y) (d_log d L) <->
+                 exists v f, owned e v /\ In f (fb_of e v) /\ trim L v = X /\ trim L f = Y).
+  Proof.
+    destruct (d_trim L) as [-> ->].
+    assert (Hr : forall r, In r RTS -> In r FL).
+    { intros r H. apply (flat_owned e rank W). eapply root_owned; eauto. }
+    assert (Hf : length FL < dfuel e FL) by (unfold dfuel; lia).
+    pose proof (trim_run_spec (kids EE) FBf L FL UK UF (dfuel e FL) RTS Hr Hf) as (S1 & S2 & S3 & S4).
+    set (s := trim_run (kids EE) FBf L (dfuel e FL) RTS) in *.
+    assert (V : forall k, In k (fst s) <-> owned e k).
+    { intro k. split.
+      - intro Hk. destruct (S3 k Hk) as [r [Hrr Hp]]. clear Hk. apply (flat_owned e rank W).
+        assert (Hin : In r FL) by (apply Hr; exact Hrr). clear Hrr.
+        apply clos_rt_rt1n in Hp. induction Hp as [|x y z Hxy Hyz IHp]; [exact Hin|].
+        apply IHp. destruct Hxy as [Hxy | Hxy]; [eapply UF | eapply UK]; eauto.
+      - intro Hk. destruct (owned_reach e rank W (S (rvv rank k)) k ltac:(lia) Hk) as [r [Hrr Hp]]. clear Hk.
+        assert (Hin : In r (fst s)) by (apply S1, In_reorder; exact Hrr). clear Hrr.
+        apply clos_rt_rt1n in Hp. induction Hp as [|x y z Hxy Hyz IHp]; [exact Hin|].
+        apply IHp. destruct (S2 x Hin) as [_ C2]. apply C2. apply vedge_iff. exact Hxy. }
+    split; [exact V|]. split.
+    - intros X Y. split.
+      + intro H. destruct (S4 _ H) as [k [Hk [[x [_ Ex]] | [c [Hc Ec]]]]]; [discriminate|].
+        inversion Ec; subst. exists k, c. split; [apply vedge_iff; exact Hc | auto].
+      + intros [p [c [Hv [<- <-]]]]. assert (Hp : In p (fst s)) by (apply V; eapply vedge_owned_l; eauto).
+        destruct (S2 p Hp) as [_ C2]. apply C2. apply vedge_iff. exact Hv.
+    - intros X Y. split.
+      + intro H. destruct (S4 _ H) as [k [Hk [[x [Hx Ex]] | [c [_ Ec]]]]]; [|discriminate].
+        inversion Ex; subst. exists k, x. repeat split; auto; [apply V; exact Hk | apply In_FBf; exact Hx].
+      + intros [v [f [Hv [Hf' [<- <-]]]]]. apply V in Hv. destruct (S2 v Hv) as [C1 _]. apply C1.
+        apply In_FBf. exact Hf'.
+  Qed.
+
+  (* edges of every tree: exactly the declared inputs at that granularity *)
+  Theorem t_kids_iff L X Y : In Y (t_kids d L X) <-> ledge e L X Y.
+  Proof. unfold t_kids. rewrite In_skids. apply trim_facts. Qed.
+  Theorem t_fb_iff L X Y :
+    In Y (t_fb d L X) <-> exists v f, owned e v /\ In f (fb_of e v) /\ trim L v = X /\ trim L f = Y.
+  Proof. unfold t_fb. rewrite In_sfb. apply trim_facts. Qed.
+  Theorem t_nodes_iff L X : In X (t_nodes d L) <-> exists v, owned e v /\ trim L v = X.
+  Proof.
+    unfold t_nodes. rewrite In_adds, in_map_iff. cbn [In]. destruct (trim_facts L) as [V _]. split.
+    - intros [[] | [v [Ev Hv]]]. exists v. split; [apply V; exact Hv | exact Ev].
+    - intros [v [Hv Ev]]. right. exists v. split; [exact Ev | apply V; exact Hv].
+  Qed.
+  Theorem t_nodes_nodup L : NoDup (t_nodes d L).
+  Proof. unfold t_nodes. apply NoDup_adds. constructor. Qed.
+
+  (* every node hangs below a root of its tree *)
+  Theorem t_nodes_reach L X : In X (t_nodes d L) ->
+    exists r, In r (t_roots d L) /\ clos_refl_trans name (fun x y => In y (t_kids d L x)) r X.
+  Proof.
+    intro H. apply t_nodes_iff in H as [v [Hv <-]].
+    destruct (owned_reach e rank W (S (rvv rank v)) v ltac:(lia) Hv) as [r [Hrr Hp]].
+    exists (trim L r). split.
+    - unfold t_roots. apply in_map. destruct (d_fields e ro fo) as (_ & _ & -> & _). apply In_reorder. exact Hrr.
+    - apply (crt_map (vedge e) _ (trim L)); [|exact Hp].
+      intros x y Hxy. apply t_kids_iff. exists x, y. auto.
+  Qed.
+
+  (* all values of one algorithm share their declared inputs *)
+  Lemma same_alg p c v : vedge e p c -> owned e v -> trim 2 v = trim 2 c -> vedge e p v.
+  Proof.
+    intros [b [Hb [Hc Hp]]] [b' [Hb' Hv]] Et. exists b. repeat split; auto.
+    assert (Eb : b' = b).
+    { pose proof (owner_of e rank W b c Hb Hc) as O1. pose proof (owner_of e rank W b' v Hb' Hv) as O2.
+      unfold owner in O1, O2. rewrite Et in O2. congruence. }
+    subst. exact Hv.
+  Qed.
+
+  Theorem t_par_iff X A : In A (t_par d X) <-> ledge e 2 A X.
+  Proof.
+    unfold t_par. rewrite In_slift. destruct (trim_facts 2) as [V _]. split.
+    - intros [v [Hv [Ev [a [Ha Ea]]]]]. apply In_parents_of, (d_par_iff e rank W) in Ha. exists a, v. auto.
+    - intros [p [c [Hv [Ep Ec]]]]. exists c. split; [apply V; eapply vedge_owned_r; eauto|]. split; [exact Ec|].
+      exists p. split; [|exact Ep]. apply In_parents_of, (d_par_iff e rank W). exact Hv.
+  Qed.
+
+  (* ancestry of an algorithm node = transitive closure of the algorithm-level edges *)
+  Lemma ledge_lift A X : clos_trans name (ledge e 2) A X ->
+    (exists c, owned e c /\ trim 2 c = X) /\
+    forall v, owned e v -> trim 2 v = X -> exists a, trim 2 a = A /\ clos_trans name (vedge e) a v.
+  Proof.
+    intro H. apply clos_trans_tn1 in H. induction H as [X [p [c [Hv [Ep Ec]]]] | Y X [p [c [Hv [Ep Ec]]]] Hc IH].
+    - split; [exists c; split; [eapply vedge_owned_r; eauto | exact Ec]|].
+      intros v Hov Et. exists p. split; [exact Ep|]. apply t_step. eapply same_alg; eauto. congruence.
+    - split; [exists c; split; [eapply vedge_owned_r; eauto | exact Ec]|].
+      intros v Hov Et. assert (Hpv : vedge e p v) by (eapply same_alg; eauto; congruence).
+      destruct IH as [_ IH]. destruct (IH p (vedge_owned_l e rank W _ _ Hv) Ep) as [a [Ea Hca]].
+      exists a. split; [exact Ea|]. eapply t_trans; [exact Hca | apply t_step; exact Hpv].
+  Qed.
+  Theorem t_anc_iff X A : In A (t_anc d X) <-> clos_trans name (ledge e 2) A X.
+  Proof.
+    unfold t_anc. rewrite In_slift. destruct (trim_facts 2) as [V _]. split.
+    - intros [v [Hv [Ev [a [Ha Ea]]]]]. apply V in Hv. apply (d_anc_iff e rank W) in Ha; [|exact Hv].
+      subst. apply (ct_map (vedge e) _ (trim 2)); [|exact Ha]. intros x y Hxy. exists x, y. auto.
+    - intro H. destruct (ledge_lift A X H) as [[c [Hc Ec]] Hl]. destruct (Hl c Hc Ec) as [a [Ea Hca]].
+      exists c. split; [apply V; exact Hc|]. split; [exact Ec|]. exists a. split; [|exact Ea].
+      apply (d_anc_iff e rank W); assumption.
+  Qed.
+
+  (* rank strictly increases along algorithm-level edges *)
+  Lemma ledge2_rank X Y : ledge e 2 X Y -> rank X < rank Y.
+  Proof. intros [p [c [Hv [<- <-]]]]. apply (vedge_rank e rank W). exact Hv. Qed.
+End WfTrim.
+
+(* ------------------------------------------------------- 7. _feedbacks *)
+Lemma dict_get_set_same dct k v : dict_get (dict_set dct k v) k = Some v.
+Proof.
+  unfold dict_get. induction dct as [|[k' v'] dct IH]; simpl.
+  - rewrite name_eqb_refl. reflexivity.
+  - destruct (name_eqb k' k) eqn:E; simpl; rewrite E; [reflexivity | exact IH].
+Qed.
+Lemma dict_get_set_other dct k v k2 : k2 <> k -> dict_get (dict_set dct k v) k2 = dict_get dct k2.
+Proof.
+  intro Hne. unfold dict_get. induction dct as [|[k' v'] dct IH]; simpl.
+  - destruct (name_eqb k k2) eqn:E; [apply name_eqb_eq in E; congruence | reflexivity].
+  - destruct (name_eqb k' k) eqn:E; simpl.
+    + apply name_eqb_eq in E. subst k'. destruct (name_eqb k k2) eqn:E2; [apply name_eqb_eq in E2; congruence | reflexivity].
+    + destruct (name_eqb k' k2); [reflexivity | exact IH].
+Qed.
+Definition dict_writes (ws : list (name * name)) (d0 : list (name * name)) :=
+  fold_left (fun dct kv => dict_set dct (fst kv) (snd kv)) ws d0.
+Lemma dict_writes_sound ws : forall d0 k v,
+  dict_get (dict_writes ws d0) k = Some v -> dict_get d0 k = Some v \/ In (k, v) ws.
+Proof.
+  induction ws as [|[k1 v1] ws IH]; intros d0 k v H; simpl in *; [auto|].
+  apply IH in H as [H | H]; [|auto]. destruct (name_eqb k k1) eqn:E.
+  - apply name_eqb_eq in E. subst. rewrite dict_get_set_same in H. inversion H. auto.
+  - apply name_eqb_neq in E. rewrite dict_get_set_other in H by exact E. auto.
+Qed.
+Lemma dict_writes_keeps ws : forall d0 k v0,
+  dict_get d0 k = Some v0 -> exists v, dict_get (dict_writes ws d0) k = Some v.
+Proof.
+  induction ws as [|[k1 v1] ws IH]; intros d0 k v0 H; simpl; [eauto|].
+  destruct (name_eqb k k1) eqn:E.
+  - apply name_eqb_eq in E. subst. eapply IH. apply dict_get_set_same.
+  - apply name_eqb_neq in E. eapply IH. rewrite dict_get_set_other by exact E. exact H.
+Qed.
+Lemma dict_writes_complete ws : forall d0 k v,
+  In (k, v) ws -> exists v', dict_get (dict_writes ws d0) k = Some v'.
+Proof.
+  induction ws as [|[k1 v1] ws IH]; intros d0 k v H; simpl in *; [destruct H|].
+  destruct H as [H | H].
+  - inversion H; subst. eapply dict_writes_keeps. apply dict_get_set_same.
+  - eapply IH. exact H.
+Qed.
+Lemma feedbacks_writes e ord :
+  feedbacks e ord = dict_writes (flat_map (fun n => map (fun f => (f, n)) (fb_of e n)) ord) [].
+Proof.
+  unfold feedbacks, dict_writes. generalize (@nil (name * name)) as d0.
+  induction ord as [|n ord IH]; intro d0; simpl; [reflexivity|].
+  rewrite fold_left_app, IH. f_equal.
+  generalize d0. induction (fb_of e n) as [|f fs IHf]; intro d1; simpl; [reflexivity | apply IHf].
+Qed.
+
+Section WfFeedback.
+  Variable e : engine.
+  Variable rank : name -> nat.
+  Hypothesis W : wf_engine e rank.
+  Variable ro : list name.
+  Variable fo : name -> list name.
+  Notation d := (construct e ro fo).
+
+  Lemma fbs_writes f n :
+    In (f, n) (flat_map (fun n => map (fun f => (f, n)) (fb_of e n)) (flat_order (events e))) <->
+    owned e n /\ In f (fb_of e n).
+  Proof.
+    rewrite in_flat_map. split.
+    - intros [n' [Hn H]]. apply in_map_iff in H as [f' [E Hf]]. inversion E; subst.
+      split; [apply (flat_owned e rank W); exact Hn | exact Hf].
+    - intros [Hn Hf]. exists n. split; [apply (flat_owned e rank W); exact Hn|].
+      apply in_map_iff. exists f. auto.
+  Qed.
+  (* every key of feedbacks is a value some consumer declares as feedback *)
+  Theorem fbs_sound f n : dict_get (d_fbs d) f = Some n -> owned e n /\ In f (fb_of e n).
+  Proof.
+    change (d_fbs d) with (feedbacks e (flat_order (events e))). rewrite feedbacks_writes.
+    intro H. apply dict_writes_sound in H as [H | H]; [discriminate|]. apply fbs_writes. exact H.
+  Qed.
+  (* every fed-back value is a key, mapped to a consumer that declares it *)
+  Theorem fbs_complete b f : In b (build_order e) -> b_own b <> [] ->
+    In f (expands e (a_fb (b_alg b))) ->
+    exists n, dict_get (d_fbs d) f = Some n /\ owned e n /\ In f (fb_of e n).
+  Proof.
+    intros Hb Hne Hf. destruct (b_own b) as [|n0 ns] eqn:Eo; [contradiction|].
+    assert (Hn0 : In n0 (b_own b)) by (rewrite Eo; left; reflexivity).
+    assert (Hw : In (f, n0) (flat_map (fun n => map (fun f => (f, n)) (fb_of e n)) (flat_order (events e)))).
+    { apply fbs_writes. split; [exists b; auto|]. unfold fb_of. rewrite (owner_of e rank W b n0 Hb Hn0). exact Hf. }
+    destruct (dict_writes_complete _ [] f n0 Hw) as [n Hn]. exists n.
+    assert (Hd : dict_get (d_fbs d) f = Some n).
+    { change (d_fbs d) with (feedbacks e (flat_order (events e))). rewrite feedbacks_writes. exact Hn. }
+    split; [exact Hd | apply fbs_sound; exact Hd].
+  Qed.
+End WfFeedback.
+
+(* ------------------------------------- 8. the record for the scheduler *)
+Lemma NoDup_map_filter {A} (f : A -> name) (p : A -> bool) l :
+  NoDup (map f l) -> NoDup (map f (filter p l)).
+Proof.
+  induction l as [|a l IH]; simpl; intro H; [constructor|].
+  inversion H as [|? ? Hn ND]; subst. destruct (p a); simpl; [|apply IH; exact ND].
+  constructor; [|apply IH; exact ND]. intro Hin. apply Hn.
+  apply in_map_iff in Hin as [x [Ex Hx]]. apply filter_In in Hx as [Hx _]. apply in_map_iff. exists x. auto.
+Qed.
+
+Definition gkids (G : list gnode) (a x : name) : Prop :=
+  exists g, In g G /\ g_tag g = a /\ In x (g_kids g).
+
+Section WfGraph.
+  Variable e : engine.
+  Variable rank : name -> nat.
+  Hypothesis W : wf_engine e rank.
+  Variable ro : list name.
+  Variable fo : name -> list name.
+  Notation bo := (build_order e).
+  Notation d := (construct e ro fo).
+  Notation G := (fst (graph_of e ro fo)).
+
+  Lemma tag_inj b b' : In b bo -> In b' bo -> b_tag b = b_tag b' -> b = b'.
+  Proof.
+    intros Hb Hb' Et. pose proof (find_nodup b_tag bo b (wf_tags _ _ W) Hb) as F1.
+    pose proof (find_nodup b_tag bo b' (wf_tags _ _ W) Hb') as F2. rewrite Et in F1. congruence.
+  Qed.
+  Lemma node_iff b : In b bo -> (In (b_tag b) (t_nodes d 2) <-> b_own b <> []).
+  Proof.
+    intro Hb. rewrite (t_nodes_iff e rank W). split.
+    - intros [v [[b' [Hb' Hv]] Et]]. rewrite (b_own_tag b' v Hv) in Et.
+      rewrite <- (tag_inj b' b Hb' Hb Et). intro E. rewrite E in Hv. destruct Hv.
+    - intro Hne. destruct (b_own b) as [|v vs] eqn:Eo; [contradiction|].
+      assert (Hv : In v (b_own b)) by (rewrite Eo; left; reflexivity).
+      exists v. split; [exists b; auto | apply b_own_tag; exact Hv].
+  Qed.
+  Lemma In_G g : In g G <-> exists b, In b bo /\ b_own b <> [] /\ g = gnode_of e d b.
+  Proof.
+    unfold graph_of. cbn [fst]. rewrite in_map_iff. split.
+    - intros [b [Eg Hb]]. apply filter_In in Hb as [Hb Hm]. apply mem_In in Hm.
+      exists b. repeat split; auto. apply (node_iff b Hb). exact Hm.
+    - intros [b [Hb [Hne ->]]]. exists b. split; [reflexivity|]. apply filter_In. split; [exact Hb|].
+      apply mem_In. apply (node_iff b Hb). exact Hne.
+  Qed.
+  Lemma owned_node v : owned e v -> exists g, In g G /\ g_tag g = trim 2 v /\ In v (g_outs g).
+  Proof.
+    intros [b [Hb Hv]]. exists (gnode_of e d b). split; [|split].
+    - apply In_G. exists b. repeat split; auto. intro E. rewrite E in Hv. destruct Hv.
+    - cbn [g_tag gnode_of]. symmetry. apply b_own_tag. exact Hv.
+    - exact Hv.
+  Qed.
+  Lemma gkids_iff a x : gkids G a x <-> ledge e 2 a x.
+  Proof.
+    split.
+    - intros [g [Hg [Et Hx]]]. apply In_G in Hg as [b [Hb [_ ->]]]. cbn [g_tag g_kids gnode_of] in *. subst a.
+      apply (t_kids_iff e rank W ro fo). exact Hx.
+    - intros [p [c [Hv [Ep Ec]]]]. destruct (owned_node p (vedge_owned_l e rank W _ _ Hv)) as [g [Hg [Et _]]].
+      exists g. split; [exact Hg|]. split; [congruence|].
+      pose proof Hg as Hg'. apply In_G in Hg' as [b [Hb [_ Eg]]]. subst g. cbn [g_tag g_kids gnode_of] in *.
+      apply (t_kids_iff e rank W ro fo). exists p, c. repeat split; auto; congruence.
+  Qed.
+
+  Theorem graph_wf :
+    NoDup (map g_tag G) /\
+    (forall g y, In g G -> In y (g_kids g) ->
+                 (exists g', In g' G /\ g_tag g' = y) /\ rank (g_tag g) < rank y) /\
+    (forall g A, In g G -> (In A (g_anc g) <-> clos_trans name (gkids G) A (g_tag g))) /\
+    (forall g, In g G -> g_outs g <> [] /\ forall v, In v (g_outs g) -> trim 2 v = g_tag g) /\
+    (forall g y, In g G -> (In y (g_kids g) <->
+                 exists g', In g' G /\ g_tag g' = y /\ exists p, In p (g_ins g') /\ In p (g_outs g))) /\
+    (forall g p, In g G -> In p (g_ins g) -> exists g', In g' G /\ In p (g_outs g')).
+  Proof.
+    split; [|split; [|split; [|split; [|split]]]].
+    - unfold graph_of. cbn [fst]. rewrite map_map. cbn [g_tag gnode_of].
+      apply NoDup_map_filter. apply (wf_tags _ _ W).
+    - intros g y Hg Hy. assert (Hk : gkids G (g_tag g) y) by (exists g; auto).
+      apply gkids_iff in Hk. split; [|apply (ledge2_rank e rank W); exact Hk].
+      destruct Hk as [p [c [Hv [_ Ec]]]].
+      destruct (owned_node c (vedge_owned_r e _ _ Hv)) as [g' [Hg' [Et _]]]. exists g'. split; [exact Hg' | congruence].
+    - intros g A Hg. pose proof Hg as Hg'. apply In_G in Hg' as [b [Hb [_ ->]]]. cbn [g_anc g_tag gnode_of].
+      rewrite (t_anc_iff e rank W). split; apply ct_incl; intros x y H; apply gkids_iff; exact H.
+    - intros g Hg. apply In_G in Hg as [b [Hb [Hne ->]]]. cbn [g_outs g_tag gnode_of].
+      split; [exact Hne | intros v Hv; apply b_own_tag; exact Hv].
+    - intros g y Hg. split.
+      + intro Hy. assert (Hk : gkids G (g_tag g) y) by (exists g; auto).
+        apply gkids_iff in Hk as [p [c [Hv [Ep Ec]]]].
+        pose proof Hv as [bc [Hbc [Hc Hp]]].
+        exists (gnode_of e d bc). split; [|split].
+        * apply In_G. exists bc. repeat split; auto. intro E. rewrite E in Hc. destruct Hc.
+        * cbn [g_tag gnode_of]. rewrite <- (b_own_tag bc c Hc). exact Ec.
+        * exists p. split; [exact Hp|]. apply In_G in Hg as [b [Hb [_ ->]]]. cbn [g_outs g_tag gnode_of] in *.
+          destruct (vedge_owned_l e rank W _ _ Hv) as [bp [Hbp Hpp]].
+          rewrite (b_own_tag bp p Hpp) in Ep. rewrite <- (tag_inj bp b Hbp Hb Ep). exact Hpp.
+      + intros [g' [Hg' [Et [p [Hp Hpo]]]]].
+        assert (Hk : gkids G (g_tag g) y); [|destruct Hk as [g0 [Hg0 [Et0 Hy0]]]].
+        { apply gkids_iff. apply In_G in Hg' as [b' [Hb' [Hne' ->]]]. apply In_G in Hg as [b [Hb [_ ->]]].
+          cbn [g_tag g_ins g_outs gnode_of] in *. destruct (b_own b') as [|c cs] eqn:Eo; [contradiction|].
+          assert (Hc : In c (b_own b')) by (rewrite Eo; left; reflexivity).
+          exists p, c. split; [exists b'; auto|]. split; [apply b_own_tag; exact Hpo|].
+          rewrite <- Et. apply b_own_tag. exact Hc. }
+        apply In_G in Hg as [b [Hb [_ ->]]]. apply In_G in Hg0 as [b0 [Hb0 [_ ->]]].
+        cbn [g_tag g_kids gnode_of] in *. rewrite <- (tag_inj b0 b Hb0 Hb Et0). exact Hy0.
+    - intros g p Hg Hp. apply In_G in Hg as [b [Hb [_ ->]]]. cbn [g_ins gnode_of] in Hp.
+      destruct (owned_node p (wf_ins_owned _ _ W b p Hb Hp)) as [g' [Hg' [_ Ho]]]. eauto.
+  Qed.
+End WfGraph.
+
+(* ---------------------- 9. feedback references do not order anything *)
+Definition strip_alg (a : algd) : algd := mkAlg (a_name a) (a_ver a) (a_svs a) (a_deps a) [].
+Definition strip_pkg (p : pkgd) : pkgd :=
+  mkPkg (p_name p) (map strip_alg (p_task p)) (map strip_alg (p_analysis p)) (map strip_alg (p_regress p)).
+(* the same engine with every feedback reference removed *)
+Definition no_fb (e : engine) : engine := map strip_pkg e.
+Definition strip_b (b : balg) : balg := mkB (b_pkg b) (b_kind b) (strip_alg (b_alg b)).
+
+Lemma find_map_strip {A} (g : A -> A) (t : A -> bool) l :
+  (forall a, t (g a) = t a) -> find t (map g l) = option_map g (find t l).
+Proof.
+  intro H. induction l as [|a l IH]; simpl; [reflexivity|]. rewrite H. destruct (t a); [reflexivity | exact IH].
+Qed.
+Lemma algs_of_kind_strip k p : algs_of_kind k (strip_pkg p) = map strip_alg (algs_of_kind k p).
+Proof. destruct k; reflexivity. Qed.
+Lemma find_alg_no_fb e pkg k alg : find_alg (no_fb e) pkg k alg = option_map strip_alg (find_alg e pkg k alg).
+Proof.
+  unfold find_alg, no_fb. rewrite (find_map_strip strip_pkg) by reflexivity.
+  destruct (find (fun p => p_name p =? pkg) e) as [p|]; simpl; [|reflexivity].
+  rewrite algs_of_kind_strip. apply (find_map_strip strip_alg). reflexivity.
+Qed.
+Lemma expand_no_fb e r : expand (no_fb e) r = expand e r.
+Proof.
+  unfold expand. destruct (r_lvl r); rewrite ?find_alg_no_fb;
+    destruct (find_alg e (r_pkg r) (r_fac r) (r_alg r)); reflexivity.
+Qed.
+Lemma expands_no_fb e rs : expands (no_fb e) rs = expands e rs.
+Proof. unfold expands. induction rs as [|r rs IH]; simpl; [reflexivity|]. rewrite expand_no_fb, IH. reflexivity. Qed.
+Lemma kind_algs_no_fb k e : kind_algs k (no_fb e) = map strip_b (kind_algs k e).
+Proof.
+  unfold kind_algs, no_fb. induction e as [|p e IH]; simpl; [reflexivity|].
+  rewrite map_app, IH. f_equal. rewrite algs_of_kind_strip, !map_map. reflexivity.
+Qed.
+Lemma build_order_no_fb e : build_order (no_fb e) = map strip_b (build_order e).
+Proof. unfold build_order. rewrite !kind_algs_no_fb, !map_app. reflexivity. Qed.
+Lemma In_bo_no_fb e b' : In b' (build_order (no_fb e)) <-> exists b, In b (build_order e) /\ b' = strip_b b.
+Proof.
+  rewrite build_order_no_fb, in_map_iff. split; intros [b [H1 H2]]; exists b; auto.
+Qed.
+Lemma b_ins_no_fb e b : b_ins (no_fb e) (strip_b b) = b_ins e b.
+Proof. unfold b_ins. apply expands_no_fb. Qed.
+Lemma vedge_no_fb e p c : vedge (no_fb e) p c <-> vedge e p c.
+Proof.
+  unfold vedge. split.
+  - intros [b' [Hb' [Hc Hp]]]. apply In_bo_no_fb in Hb' as [b [Hb ->]]. rewrite b_ins_no_fb in Hp. exists b. auto.
+  - intros [b [Hb [Hc Hp]]]. exists (strip_b b). split; [apply In_bo_no_fb; eauto|].
+    rewrite b_ins_no_fb. auto.
+Qed.
+Lemma owned_no_fb e n : owned (no_fb e) n <-> owned e n.
+Proof.
+  unfold owned. split.
+  - intros [b' [Hb' Hn]]. apply In_bo_no_fb in Hb' as [b [Hb ->]]. exists b. auto.
+  - intros [b [Hb Hn]]. exists (strip_b b). split; [apply In_bo_no_fb; eauto | exact Hn].
+Qed.
+Lemma wf_no_fb e rank : wf_engine e rank -> wf_engine (no_fb e) rank.
+Proof.
+  intro W. constructor.
+  - rewrite build_order_no_fb, map_map. apply (wf_tags _ _ W).
+  - intros b' r Hb' Hr. apply In_bo_no_fb in Hb' as [b [Hb ->]]. rewrite expand_no_fb.
+    eapply (wf_nonempty _ _ W); eauto.
+  - intros b' p Hb' Hp. apply In_bo_no_fb in Hb' as [b [Hb ->]]. rewrite b_ins_no_fb in Hp.
+    apply owned_no_fb. eapply (wf_ins_owned _ _ W); eauto.
+  - intros b' p Hb' Hp. apply In_bo_no_fb in Hb' as [b [Hb ->]]. destruct Hp.
+  - intros b' p Hb' Hp. apply In_bo_no_fb in Hb' as [b [Hb ->]]. rewrite b_ins_no_fb in Hp.
+    apply (wf_rank _ _ W b p Hb Hp).
+  - intros b' Hb'. apply In_bo_no_fb in Hb' as [b [Hb ->]]. rewrite build_order_no_fb, map_length.
+    apply (wf_bound _ _ W b Hb).
+Qed.
+Lemma ledge_no_fb e L X Y : ledge (no_fb e) L X Y <-> ledge e L X Y.
+Proof.
+  unfold ledge. split; intros [p [c [Hv H]]]; exists p, c; (split; [apply vedge_no_fb; exact Hv | exact H]).
+Qed.
+
+Theorem feedback_orders_nothing e rank ro fo ro' fo' : wf_engine e rank ->
+  (forall L X Y, In Y (t_kids (construct e ro fo) L X) <-> In Y (t_kids (construct (no_fb e) ro' fo') L X)) /\
+  (forall X A, In A (t_anc (construct e ro fo) X) <-> In A (t_anc (construct (no_fb e) ro' fo') X)) /\
+  (forall L X, In X (t_nodes (construct e ro fo) L) <-> In X (t_nodes (construct (no_fb e) ro' fo') L)).
+Proof.
+  intro W. pose proof (wf_no_fb e rank W) as W'. split; [|split].
+  - intros L X Y. rewrite (t_kids_iff e rank W), (t_kids_iff (no_fb e) rank W'). symmetry. apply ledge_no_fb.
+  - intros X A. rewrite (t_anc_iff e rank W), (t_anc_iff (no_fb e) rank W').
+    split; apply ct_incl; intros x y H; apply ledge_no_fb; exact H.
+  - intros L X. rewrite (t_nodes_iff e rank W), (t_nodes_iff (no_fb e) rank W').
+    split; intros [v [Hv Ev]]; exists v; (split; [apply owned_no_fb; exact Hv | exact Ev]).
+Qed.
+
+(* ----------------------------------------------- 10. statement helpers *)
+Lemma ledge_descr e L X Y :
+  ledge e L X Y <->
+  exists b c p, In b (build_order e) /\ In c (b_own b) /\ In p (expands e (a_deps (b_alg b))) /\
+                trim L p = X /\ trim L c = Y.
+Proof.
+  unfold ledge, vedge, b_ins. split.
+  - intros [p [c [[b [Hb [Hc Hp]]] [E1 E2]]]]. exists b, c, p. auto.
+  - intros [b [c [p [Hb [Hc [Hp [E1 E2]]]]]]]. exists p, c. split; [exists b; auto | auto].
+Qed.
+Lemma t_nodes2_iff e rank ro fo X : wf_engine e rank ->
+  (In X (t_nodes (construct e ro fo) 2) <-> exists b, In b (build_order e) /\ b_own b <> [] /\ b_tag b = X).
+Proof.
+  intro W. split.
+  - intro H. pose proof H as H'. apply (t_nodes_iff e rank W) in H' as [v [[b [Hb Hv]] Ev]].
+    exists b. split; [exact Hb|]. split; [intro E; rewrite E in Hv; destruct Hv|].
+    rewrite <- Ev. symmetry. apply b_own_tag. exact Hv.
+  - intros [b [Hb [Hne <-]]]. apply (node_iff e rank W ro fo b Hb). exact Hne.
+Qed.
